@@ -86,7 +86,28 @@ func upper(s string) string {
 	return string(b)
 }
 
-func isWS(c byte) bool          { return c == ' ' || (c >= 0x09 && c <= 0x0d) }
+func isWS(c byte) bool { return c == ' ' || (c >= 0x09 && c <= 0x0d) }
+
+// UniWS returns the length of the Unicode whitespace character at the start of s, 0 if there is none. The set is the
+// one GoogleSQL's tokenizer lists (U+00A0, U+1680, U+2000..U+200A, U+2028, U+2029, U+202F, U+205F, U+3000); other
+// non-ASCII characters outside literals and comments stay Unspecified.
+func UniWS(s string) int {
+	if len(s) >= 2 && s[0] == 0xC2 && s[1] == 0xA0 {
+		return 2
+	}
+	if len(s) < 3 {
+		return 0
+	}
+	switch {
+	case s[0] == 0xE1 && s[1] == 0x9A && s[2] == 0x80,
+		s[0] == 0xE2 && s[1] == 0x80 && (s[2] >= 0x80 && s[2] <= 0x8A || s[2] == 0xA8 || s[2] == 0xA9 || s[2] == 0xAF),
+		s[0] == 0xE2 && s[1] == 0x81 && s[2] == 0x9F,
+		s[0] == 0xE3 && s[1] == 0x80 && s[2] == 0x80:
+		return 3
+	}
+	return 0
+}
+
 func isDigit(c byte) bool       { return c >= '0' && c <= '9' }
 func isHex(c byte) bool         { return isDigit(c) || (c >= 'a' && c <= 'f') || (c >= 'A' && c <= 'F') }
 func isOct(c byte) bool         { return c >= '0' && c <= '7' }
@@ -114,6 +135,9 @@ func Lex(in string) Out {
 			switch {
 			case isWS(c):
 				pos++
+				continue
+			case c >= 0x80 && UniWS(in[pos:]) > 0:
+				pos += UniWS(in[pos:])
 				continue
 			case c == '#' || (c == '-' && pos+1 < n && in[pos+1] == '-') || (c == '/' && pos+1 < n && in[pos+1] == '/'):
 				s := pos
